@@ -161,7 +161,7 @@ def run(tier, seed):
     if r.generated != 3 * len(cases) or r.depth != 3:
         core.die("FormatSpec: %d states for %d published cases (expected todo/ops/done per case)" % (r.generated, len(cases)))
     by_cls = collections.Counter((c["site"], c["cls"]) for c in cases)
-    for need in (("fstr", "core"), ("fstr", "cfam"), ("fstr", "conv"), ("fstr", "ffam"), ("fstr", "gen"), ("fstr", "bad"),
+    for need in (("fstr", "core"), ("fstr", "cfam"), ("fstr", "conv"), ("fstr", "ffam"), ("fstr", "near"), ("fstr", "gen"), ("fstr", "bad"),
                  ("pct", "pct"), ("call", "call"), ("join", "join")):
         if by_cls[need] == 0:
             core.die("vacuous model: no case of class %r published (%r)" % (need, dict(by_cls)))
@@ -313,4 +313,41 @@ def run(tier, seed):
                                      "locale-dependent type 'n' and the 'z' option are not generated",
                                      "CPython 3.12 is the oracle for every cell (spec drift = machinery error)"],
                         violations=rep.n_violations())
+    return rc
+
+
+def replay(path, seed):
+    """Re-run the cases of a replay file: one compiled function per (carrier, expression)."""
+    with open(path) as f:
+        rec = json.load(f)
+    if rec["descriptor"].get("site") == "build":
+        print(rec["cases"][0].get("errors", "")[-2000:])
+        print("VIOLATION property=%s replay=%s" % (PROP, path))
+        return 1
+    src = ["# cython: language_level=3", ""]
+    names = {}
+    for c in rec["cases"]:
+        key = (c["carrier"], c["expr"])
+        if key in names:
+            continue
+        names[key] = "r%d" % len(names)
+        if c["carrier"] == "int,object":
+            src.append("def %s(int a, object b):\n    return (%s,)\n" % (names[key], c["expr"]))
+        else:
+            src.append("def %s(%s v):\n    return (%s,)\n" % (names[key], L.decl_of(c["carrier"]), c["expr"]))
+    b = core.build_many([core.BuildSpec("c18replay", "\n".join(src))])[0]
+    if not b.ok:
+        print((b.errors or "")[-2000:])
+        print("VIOLATION property=%s replay=%s" % (PROP, path))
+        return 1
+    cl = [[names[(c["carrier"], c["expr"])], c["call"][1][1:], True] for c in rec["cases"]]
+    obs = calls.run_calls(b, cl, timeout=300, tag="replay")
+    rc = 0
+    for c, o in zip(rec["cases"], obs):
+        got = obs_of(o)
+        print("%s  carrier=%s operand=%s\n  want %s\n  got  %s" % (c["expr"], c["carrier"], c["operand"], ascii(c["want"]), ascii(got)))
+        if got != c["want"]:
+            rc = 1
+    if rc:
+        print("VIOLATION property=%s replay=%s" % (PROP, path))
     return rc
